@@ -302,8 +302,10 @@ def c14_minimise(r, res, v, exes, max_tests=60):
             for n2 in (n // 2, n - 1):
                 if 0 <= n2 < n:
                     cands.append(mt.make(where, prints[:k] + [(kind, n2)] + prints[k + 1:], trap, depth))
-            if kind >= 2:
+            if kind & 2:
                 cands.append(mt.make(where, prints[:k] + [(kind - 2, n)] + prints[k + 1:], trap, depth))
+            if kind & 4:
+                cands.append(mt.make(where, prints[:k] + [(kind - 4, n)] + prints[k + 1:], trap, depth))
         if depth > 0:
             cands.append(mt.make(where, prints, trap, 0))
         if where != 0:
